@@ -259,6 +259,12 @@ pub fn match_bed_and_breakfast(
                         cumulative_ratio_effect,
                     );
 
+                // A rounding residue of the purchase (e.g. 1e-28 left after a 3-for-1 split)
+                // converts to zero shares at the sale date: nothing is matched, so no leg.
+                if matched_qty_at_sell_time <= Decimal::ZERO {
+                    continue;
+                }
+
                 // Get cost for the matched quantity
                 let cost = matched_buy_cost(
                     matched_qty_at_buy_time,
